@@ -1,15 +1,21 @@
 (* C12 - Checksums: intact files verify, damaged blocks are never accepted.
-   PROVED: which bytes the checks cover and what they decide (T12b), and that every
-   error flipping an ODD number of bits in a block's stored bytes + checksum field is
-   detected by CRC-32C (T12d: covers all single and triple bit flips).
-   NOT proved (stated, validated by engine c12 on real files): detection of double
-   flips and of bursts <= 32 bits (T12c_statement: needs the invertibility of the
-   shift register on bit windows); that a writer-made file verifies (T12a) is covered
-   by the construction frame = length ++ CRC of the stored bytes (Properties_C09
-   layout theorem) together with T12b's "OK iff every field matches". *)
+   PROVED:
+   T12b - which bytes the checks cover and what they decide: a verify_checksums reader stops
+     before decoding a block whose checksum field differs from the CRC-32C of its stored bytes;
+     mtbl_verify says OK exactly when every field matches.
+   T12c_bursts - every error pattern confined to 32 consecutive bit positions of (stored
+     bytes ++ little-endian checksum field) - in the bytes, in the field, or straddling both -
+     turns a consistent pair into an inconsistent one: all bursts <= 32 bits, hence also every
+     double flip whose two bits are at most 31 positions apart.  (Bit-serial view of the
+     register, GF(2)-linearity, injectivity of the shift on 32-bit states.)
+   T12d - every error flipping an ODD number of bits (all single and triple flips) is detected.
+   NOT proved: double flips more than 31 bit positions apart (that needs the multiplicative
+   order of x modulo the generator, about 2^31); they are sampled by engine c12 on real files,
+   which also runs mtbl_verify and a verify_checksums reader on every intact writer-made file
+   and on files damaged in data blocks and in the index block (payload and checksum field). *)
 From Coq Require Import NArith List Lia Bool.
 From Mtbl Require Import gen.Consts model.Bytes model.Codec model.Crc model.Writer spec.Leb128 spec.Parse
-  model.Reader model.Verify proofs.VerifyProofs proofs.CrcDetect.
+  model.Reader model.Verify proofs.VerifyProofs proofs.CrcDetect proofs.CrcBurst.
 Local Open Scope N_scope.
 
 (* T12b (reader): whatever operation makes a verify_checksums reader load the block at
@@ -40,13 +46,32 @@ Theorem T12d_odd_weight_errors_detected : forall s s' f', length s = length s' -
 Proof. exact odd_errors_detected. Qed.
 Print Assumptions T12d_odd_weight_errors_detected.
 
-(* the part that is stated but not proved *)
-Definition T12c_statement : Prop :=
-  forall s s' f', length s = length s' -> (s, crc32c_ref s) <> (s', f') ->
-    (* all differing bits of (s ++ le32 field) lie within 32 consecutive bit positions *)
-    (exists lo, forall i, (i < lo \/ lo + 32 <= i) ->
-        N.testbit (le_value (diff (s ++ fixed_encode32 (crc32c_ref s)) (s' ++ fixed_encode32 f'))) i = false) ->
-    f' <> crc32c_ref s'.
+(* T12c: bursts.  [framed s f] = the stored bytes followed by the four little-endian bytes of the
+   field; the hypothesis says that, read as one little-endian number, the intact and the damaged
+   frame differ only at bit positions inside [lo, lo + 32) *)
+Theorem T12c_bursts : forall s s' f' lo, wf_bytes s -> wf_bytes s' -> f' < 2 ^ 32 -> length s = length s' ->
+  (s, crc32c_ref s) <> (s', f') ->
+  (forall i, (i < N.of_nat lo \/ N.of_nat lo + 32 <= i) ->
+     N.testbit (N.lxor (le_value (framed s (crc32c_ref s))) (le_value (framed s' f'))) i = false) ->
+  f' <> crc32c_ref s'.
+Proof. exact burst_detected. Qed.
+Print Assumptions T12c_bursts.
+
+(* non-vacuity: a 2-bit error straddling a byte boundary and one straddling the payload / field boundary *)
+Example T12c_example :
+  let s := [1; 2; 3] in
+  crc32c_ref [1; 130; 2] <> crc32c_ref s /\
+  (forall i, (i < 15 \/ 15 + 32 <= i) ->
+     N.testbit (N.lxor (le_value (framed s (crc32c_ref s))) (le_value (framed [1; 130; 2] (crc32c_ref s)))) i = false).
+Proof.
+  split; [vm_compute; discriminate|]. intros i Hi. vm_compute (N.lxor _ _).
+  destruct Hi as [Hi|Hi].
+  - assert (Hc : i < 16) by lia.
+    assert (H16 : forallb (fun j => negb (N.testbit 98304 j) || (15 <=? j)) (map N.of_nat (seq 0 16)) = true) by (vm_compute; reflexivity).
+    rewrite forallb_forall in H16. specialize (H16 i ltac:(apply in_map_iff; exists (N.to_nat i); split; [lia|apply in_seq; lia])).
+    destruct (N.testbit 98304 i); [cbn in H16; lia|reflexivity].
+  - apply N.bits_above_log2. vm_compute (N.log2 _). lia.
+Qed.
 
 Example T12_example :
   T12d_odd_weight_errors_detected = T12d_odd_weight_errors_detected /\
